@@ -39,6 +39,8 @@ MUTANTS = [
     ("limiter-counts-whitespace-only-lines", "C15", "nunavut/_postprocessors.py", "        if len(line_and_lineend[0]) == 0:\n            self._empty_line_count += 1", "        if len(line_and_lineend[0].strip()) == 0:\n            self._empty_line_count += 1"),
     ("held-cr-dropped-at-end", "C15", "nunavut/jinja/__init__.py", "    if held:\n        yield held\n", "    if held and False:\n        yield held\n"),
     ("line-buffer-splits-like-splitlines", "C15", "nunavut/jinja/__init__.py", 're.compile(r"\\n|\\r\\n", flags=re.MULTILINE)', 're.compile(r"\\r\\n|[\\n\\x0b\\x0c\\x1c-\\x1e\\x85\\u2028\\u2029]", flags=re.MULTILINE)'),
+    # (the revert of fix 10c5774 no longer applies as a reverse patch - later fixes touch the same hunk; this is its effect)
+    ("crlf-hold-back-bypassed", "C15", "nunavut/jinja/__init__.py", "        for part in _hold_back_split_line_endings(template_gen):", "        for part in template_gen:"),
     ("trim-strips-spaces-only", "C15", "nunavut/_postprocessors.py", 're.compile(r"\\s+$")', 're.compile(r" +$")'),
     ("deep-update-shallow-copy", "C13", "nunavut/_utilities.py", "target = copy.deepcopy(source)", "target = copy.copy(source)"),
     ("default-value-displaces-explicit", "C13", "nunavut/_utilities.py", "            if isinstance(value, DefaultValue) and not isinstance(target[key], DefaultValue):\n                return target[key]", "            if isinstance(value, DefaultValue) and not isinstance(target[key], (DefaultValue, bool)):\n                return target[key]"),
